@@ -356,6 +356,26 @@ that overlaps a failed attempt is missed (only multi-character patterns, e.g. `=
 theorem findUncommented_overlap_counterexample :
     findUncommented "==>".toList "=>".toList = none := by decide
 
+/-- `find_uncommented` returns a position at which the whole pattern fits into the text. -/
+theorem find_uncommented_in_bounds (s pat : List Char) (r : Nat)
+    (h : findUncommented s pat = some r) : r + utf8Len pat ≤ utf8Len s :=
+  findUncommented_bound s pat r h
+
+/-- `get_comment_end` (the byte at which the post-comment zone of a list item ends and the
+pre-comment zone of the next item begins) never points past the end of the gap between the two
+items, whatever the gap contains: the two zones cover the gap. -/
+theorem get_comment_end_in_bounds (post sep term : List Char) (isLast : Bool) (n : Nat)
+    (hsep : sep ≠ []) (h : getCommentEnd? post sep term isLast = some n) : n ≤ utf8Len post :=
+  getCommentEnd_le post sep term isLast n hsep h
+
+example : getCommentEnd? ", // c\n    ".toList [','] [')'] false = some 7 := by decide
+example : getCommentEnd? " /* c */, ".toList [','] [')'] false = some 9 := by decide
+/-- It can panic (`find_comment_end(..).unwrap()`): a separator, then a block comment that is not
+terminated inside the gap, then a newline — not reachable from parsed source, where the gap ends
+before the next item and comments are terminated. -/
+theorem get_comment_end_panic_counterexample :
+    getCommentEnd? ", /* c \n".toList [','] [')'] false = none := by decide
+
 /-! ## 6. `CharClasses` against a declarative lexer specification
 
 `RF.LexSpec` describes a text generatively, from the Rust reference: a list of tokens (code
